@@ -17,6 +17,17 @@ FULL_OUTPUT = True
 
 
 def gen_cases(tier, rng):
+    # per-message conversion (MakeDefaultRtmpHeader + chunking, FLV tag, @setDataFrame handling): byte-exact
+    sdf = fanout.SDF
+    metas = [fanout.amf_str(b"onMetaData") + bytes([8, 0, 0, 0, 0, 0, 0, 9]), sdf + fanout.amf_str(b"onMetaData") + bytes([3, 0, 0, 9]),
+             sdf, bytes([2, 0, 200, 65]), bytes([12, 0, 0, 0, 13]) + b"@setDataFrame" + fanout.amf_str(b"onMetaData"), bytes([2, 0]), b"\x05"]
+    for t in (8, 9, 18):
+        for ts in (0, 1, 16777214, 16777215, 16777216, 4294967295):
+            for n in (1, 2, 5, 4095, 4096, 4097, 8191, 8192, 8193, 70000 if tier == "thorough" else 12289):
+                yield Case("c01.conv %d %d %s" % (t, ts, payload_tok(rng, n)), cls="conv")
+    for mp in metas:
+        for ts in (0, 16777215):
+            yield Case("c01.conv 18 %d %s" % (ts, hex_tok(mp)), cls="conv-meta")
     yield from fanout.gen_histories(tier, rng)
 
 
@@ -31,6 +42,8 @@ def nontrivial(c, out):
 
 def oracle(c, out):
     """C01 evaluated on the implementation's observation, from the history text alone."""
+    if c.line.startswith("c01.conv"):
+        return None
     if out.startswith(("panic@", "crash@", "timeout", "err", "bad")):
         return (False, "implementation failed: " + out)
     cfg, evs = fanout.parse_case(c.line)
